@@ -64,6 +64,10 @@ def run(chk: Check) -> None:
     # "... and stepping returns normally": a step blocked in the state that the failure abandons is released (shared with C02)
     from .c02 import inflight_step_released
     inflight_step_released(chk)
+    # fail() is guarded by @event(from_states=...): the guard must accept the state classes a subclass substitutes (the work chain's WAITING), else the failure
+    # of a scheduled callback raises EventError instead of ending the process EXCEPTED (shared with C13)
+    from .common import event_guard_accepts_subclasses
+    event_guard_accepts_subclasses(chk, 'GUARD-fail-event')
     # EXCEPTED must be reachable from every live state, else the failure itself is refused
     prog = chk.prog
     for lbl in common.LIVE:
